@@ -781,3 +781,7 @@ func TestC04(t *testing.T) {
 	vh.Drive(t, vh.Spec[Case]{Name: "default-writer", Quick: 40000, Thorough: 1500000, Gen: genCase, Run: runCase, Deadline: 20 * time.Second})
 	vh.Drive(t, vh.Spec[CustomCase]{Name: "custom-writers", Quick: 40000, Thorough: 1500000, Gen: genCustom, Run: runCustom, Deadline: 20 * time.Second})
 }
+
+func FuzzC04(f *testing.F) {
+	vh.Fuzz(f, vh.Spec[Case]{Name: "default-writer", Gen: genCase, Run: runCase, Deadline: 20 * time.Second})
+}
